@@ -135,6 +135,8 @@ def script_pop_on(rng, tx, ncap):
     """RCL ENM (PAC [tab] text)* [EDM] EOC, fetched after EOC"""
     for _ in range(ncap):
         tx.misc("RCL"); tx.misc("ENM")
+        if rng.random() < 0.3:
+            tx.fetch()                            # loading must not disturb the caption on display
         rows = rng.sample(range(15), rng.randrange(1, 5))
         for r in rows:
             colour = 0
@@ -162,6 +164,8 @@ def script_pop_on(rng, tx, ncap):
                 tx.text(words(rng, rng.randrange(2, 5), end_space=False))
             if rng.random() < 0.1:
                 tx.special(rng.choice([0, 1, 2, 3, 4, 5, 6, 7, 8, 10, 11, 12, 13, 14, 15]))
+            if rng.random() < 0.15:
+                tx.fetch()
         if rng.random() < 0.3:
             tx.misc("EDM")
             if rng.random() < 0.5:
@@ -438,6 +442,30 @@ class C08(verif.Spec):
             tx.cut()
             i = tx.pgno(istext) - 1
             add([l for u in tx.ops for l in u] + ["raw %d 0" % i, "raw %d 1" % i, "tail %d 0" % i, "tail %d 1" % i] + END_DUMP, "margin")
+        # the two event-less display changes of finding F19 are isolated between fetches of the pages they can touch
+        def isolate(c):
+            out, i = [], 0
+            while i < len(c):
+                l = c[i]
+                k = self.silent_kind(l) if l.startswith("cc ") else None
+                if k is None:
+                    out.append(l); i += 1
+                    continue
+                j = i
+                while j < len(c) and c[j] == l:
+                    j += 1
+                t = l.split()
+                g = 2 * int(t[1]) + ((int(t[2][:2], 16) >> 3) & 1)
+                fs = ["fetch %d" % (g + 1), "fetch %d" % (g + 5)]
+                out += fs + c[i:j] + fs
+                i = j
+            return out
+        for n, c in enumerate(cases):
+            if self._wf.get("\n".join(c), "margin") == "margin" and c and c[0] != "layout":
+                tag = self._wf.pop("\n".join(c), None)
+                cases[n] = isolate(c)
+                if tag:
+                    self._wf["\n".join(cases[n])] = tag
         # expected pages of the reference model for the well-formed cases
         self._expect = {}
         wf = [c for c in cases if self._wf.get("\n".join(c), "margin") != "margin"]
@@ -554,28 +582,29 @@ class C08(verif.Spec):
         return None
 
     @staticmethod
-    def erase_pattern(ops, field):
-        """which of the two event-less display changes (finding F19) occur among the pairs of this page's field
-        since the last fetch: a roll-up command (erases when it arrives in pop-on mode) or a CR (in pop-on mode)"""
-        kinds = set()
-        for l in ops:
-            t = l.split()
-            if len(t) != 3 or t[1] != str(field):
-                continue
-            try:
-                a, b = int(t[2][:2], 16) & 0x7F, int(t[2][2:], 16) & 0x7F
-            except ValueError:
-                continue
-            if 0x10 <= a <= 0x1F:
-                if b >= 0x40:
-                    pass
-                elif (a & 7) in (4, 5) and (b & 15) in (5, 6, 7):
-                    kinds.add("RU")
-                elif (a & 7) in (4, 5) and (b & 15) == 13:
-                    kinds.add("CR")
-        if "RU" in kinds:
+    def silent_kind(line):
+        """RU / CR / None for one `cc f hex` line (as libzvbi decodes it: second byte < 0x40, low nibble)"""
+        t = line.split()
+        try:
+            a, b = int(t[2][:2], 16) & 0x7F, int(t[2][2:], 16) & 0x7F
+        except (ValueError, IndexError):
+            return None
+        if 0x10 <= a <= 0x1F and b < 0x40 and (a & 7) in (4, 5):
+            if (b & 15) in (5, 6, 7):
+                return "RU"
+            if (b & 15) == 13:
+                return "CR"
+        return None
+
+    @classmethod
+    def erase_pattern(cls, ops, field):
+        """finding F19 is recognised only when ALL pairs of this page's field since the previous fetch are roll-up
+        commands (erase on arrival in pop-on mode) or all are carriage returns (CR in pop-on mode); the generators
+        fetch the affected pages directly before and after every such command, so anything else stays a violation"""
+        kinds = [cls.silent_kind(l) for l in ops if len(l.split()) == 3 and l.split()[1] == str(field)]
+        if kinds and all(k == "RU" for k in kinds):
             return " (after RUx)"
-        if "CR" in kinds:
+        if kinds and all(k == "CR" for k in kinds):
             return " (after CR)"
         return ""
 
